@@ -2,7 +2,7 @@
    signature so that a single small OCaml driver (or a generated cases.v) can run
    them:  dispatch id scalars coords indices : option (list Q). *)
 From Coq Require Import List ZArith QArith Bool.
-Require Import Cox.Num.Ops Cox.Geo.Vec Cox.Model.Mesh Cox.Model.Polygon Cox.Model.Inside Cox.Model.Curved Cox.Model.Structure Cox.Model.Balls Cox.Model.Simple Cox.Model.Roundtrip.
+Require Import Cox.Num.Ops Cox.Geo.Vec Cox.Model.Mesh Cox.Model.Polygon Cox.Model.Inside Cox.Model.Curved Cox.Model.Structure Cox.Model.Balls Cox.Model.Simple Cox.Model.Roundtrip Cox.Model.MeshIO.
 Import ListNotations.
 
 Fixpoint group3 (l : list Q) : list (vec3 Q) :=
@@ -192,6 +192,33 @@ Section Entries.
     | Some k => [z2q (match k with KCircle => 0 | KEllipse => 1 | KSphere => 2 | KEllipsoid => 3 | KPolygon => 4 | KConvexPolygon => 5
                               | KConvexSpheropolygon => 6 | KPolyhedron => 7 | KConvexPolyhedron => 8 | KConvexSpheropolyhedron => 9 end)]
     end.
+
+  (* 70: mesh-file parsers on token lines. sc = [format: 0 OBJ, 1 OFF, 2 PLY, 3 VTK, 4 X3D coordIndex];
+     idx = lines, tokens encoded as 4n (N n), 4id+1 (F id), 4c+2 (K c), 3 (-1).
+     output: [0] (rejected) | [1; nv; f0 corners..., -1, f1 corners..., -1, ...]  (X3D: [1; 0; face sizes...]) *)
+  Definition dec_tok (n : nat) : tok :=
+    match Nat.modulo n 4 with
+    | 0 => MeshIO.N (Nat.div n 4) | 1 => MeshIO.F (Nat.div n 4) | 2 => MeshIO.K (Nat.div n 4) | _ => Minus1
+    end%nat.
+  Definition enc_mesh (m : option mesh) : list Q :=
+    match m with
+    | None => [0]
+    | Some m => [1; n2q (nv m)] ++ flat_map (fun f => map n2q f ++ [z2q (-1)]) (MeshIO.faces m)
+    end.
+  Definition e_meshio (sc : list Q) (idx : list (list nat)) : list Q :=
+    let ls := map (map dec_tok) idx in
+    match Qnum (nth 0 sc 0) with
+    | 0%Z => enc_mesh (parse_obj ls)
+    | 1%Z => enc_mesh (parse_off ls)
+    | 2%Z => enc_mesh (parse_ply ls)
+    | 3%Z => enc_mesh (parse_vtk ls)
+    | _ => match ls with
+           | [l] => match x3d_parse (S (length l)) 0 0 l with
+                    | Some sizes => [1; 0] ++ map n2q sizes
+                    | None => [0] end
+           | _ => [0]
+           end
+    end.
 End Entries.
 
 Definition dispatch (f : nat) (sc qs : list Q) (idx : list (list nat)) : option (list Q) :=
@@ -217,5 +244,6 @@ Definition dispatch (f : nat) (sc qs : list Q) (idx : list (list nat)) : option 
   | 46 => Some (e_circum sc qs)
   | 47 => Some (e_simple qs)
   | 60 => Some (e_gsd_dispatch sc)
+  | 70 => Some (e_meshio sc idx)
   | _ => None
   end%nat.
